@@ -138,6 +138,7 @@ class ProxyWorld:
         self.errors: list = []
         self.hooks: list = []  # (t, name, key, data)
         self.hook_listeners: list = []
+        self.hook_done_listeners: list = []  # called when a hook (incl. interception) has completed
         self.policy = None  # callable(name, data) -> awaitable | None
         self.pending_hooks = 0
         self.hook_spans: list = []
@@ -227,6 +228,8 @@ class ProxyWorld:
             finally:
                 world.pending_hooks -= 1
                 span[3] = world.loop.time()
+                for l in world.hook_done_listeners:
+                    l(hook.name, hook.args()[0])
 
         async def server_event(self_, event):
             r = await orig_server_event(self_, event)
